@@ -64,10 +64,14 @@ RawValue(c, st) ==
 \* sanitised value: <<>> means "contributes nothing"
 Value(c, st, san) == LET r == RawValue(c, st) IN IF r.s = 0 THEN <<>> ELSE San(san, r.v)
 
-\* an integer-valued component: sanitises with the uint rule to a number that fits u32
+\* an integer-valued component: sanitises with the uint rule to a number the format can
+\* hold (SemVer: u64, PEP 440: u32)
 U32Text == <<52,50,57,52,57,54,55,50,57,53>>
-FitsU32Text(t) == AllDigits(t) /\ NumCmp(t, U32Text) <= 0
-IntValued(c, st) == LET u == Value(c, st, "uint") IN u # <<>> /\ FitsU32Text(u)
+U64Text == <<49,56,52,52,54,55,52,52,48,55,51,55,48,57,53,53,49,54,49,53>>
+FitsText(t, lim) == AllDigits(t) /\ NumCmp(t, lim) <= 0
+IntValuedIn(c, st, lim) == LET u == Value(c, st, "uint") IN u # <<>> /\ FitsText(u, lim)
+IntValued(c, st) == IntValuedIn(c, st, U32Text)
+IntValuedSv(c, st) == IntValuedIn(c, st, U64Text)
 
 \* flatten a sanitised value on '.', dropping empty parts
 Parts(t) == IF t = <<>> THEN <<>> ELSE SelectSeq(Split(t, DOT), LAMBDA p : p # <<>>)
@@ -91,7 +95,7 @@ Normalized(st) == IF st.v.epoch = 0 THEN [st EXCEPT !.v.epoch = NONE] ELSE st
 RECURSIVE SvCore(_, _, _, _, _)
 SvCore(core, st, i, nums, pre) ==
   IF i > Len(core) THEN [nums |-> nums, pre |-> pre]
-  ELSE IF Len(nums) < 3 /\ IntValued(core[i], st)
+  ELSE IF Len(nums) < 3 /\ IntValuedSv(core[i], st)
        THEN SvCore(core, st, i + 1, Append(nums, Value(core[i], st, "uint")), pre)
        ELSE SvCore(core, st, i + 1, nums, pre \o Parts(Value(core[i], st, "semver")))
 RECURSIVE SvExtra(_, _, _)
